@@ -6,5 +6,5 @@ WT=$(mktemp -d /tmp/fvq.XXXXXX); rmdir "$WT"
 git -C /repo worktree add -q --detach "$WT" HEAD
 git -C "$WT" apply "$P" || { git -C /repo worktree remove --force "$WT"; exit 3; }
 cd /verif
-PYTHONPATH="$WT" PYTHONHASHSEED=0 PYTHONDONTWRITEBYTECODE=1 FROUROS_REPO="$WT" VERIF_OUT=/tmp/fvseed_out /venv/bin/python harness/main.py "$C" --tier "$T" 2>&1 | grep -E "VIOLATION|KNOWN|INTERNAL|Traceback|Error|^\[C" | cut -c1-220 | head -12
+PYTHONPATH="$WT" PYTHONHASHSEED=0 PYTHONDONTWRITEBYTECODE=1 FROUROS_REPO="$WT" VERIF_OUT=/tmp/fvseed_out /venv/bin/python harness/main.py "$C" --tier "$T" 2>&1 | grep -E "VIOLATION|INTERNAL|Traceback|Error|^\[C" | cut -c1-220 | head -12
 git -C /repo worktree remove --force "$WT"; rm -rf "$WT"
